@@ -1,8 +1,8 @@
 ------------------------------- MODULE PoolMC -------------------------------
 EXTENDS Pool, SequencesExt
 Terminal == pc["pool"] = "Done"
-Rec == [scn |-> [n |-> N, retry |-> IF Retry THEN "T" ELSE "F"],
-        obs |-> [outcome |-> outcome, ret |-> ret,
+Rec == [scn |-> [n |-> N, retry |-> IF Retry THEN "T" ELSE "F", retres |-> IF RetRes THEN "T" ELSE "F"],
+        obs |-> [outcome |-> outcome, ret |-> ret, retnone |-> IF RetRes THEN "F" ELSE "T",
                  alive |-> SetToSeq({w \in W : st[w] = "run"}),
                  dead |-> SetToSeq({w \in W : st[w] # "run"}),
                  refusers |-> SetToSeq(refusedEver),
@@ -24,7 +24,12 @@ W_NoDeathHandled == closed = {}
 W_NoRetry == ~(Terminal /\ outcome = "ok" /\ closed # {})
 W_NoPoolError == outcome # "poolerror"
 \* path dump
-PathDump == Terminal => PrintT(<<"PATH", ToString(h), ToString(cis), outcome, ToString(ret)>>)
+PathDump == Terminal => PrintT(<<"PATH", ToString(h), ToString(cis), outcome, ToString(ret), ToString(cbres), ToString(gen)>>)
+\* return_results = FALSE: nothing is accumulated, the callback sees what would have been returned
+Inv_CallbackSeesAll == (Terminal /\ outcome = "ok" /\ Retry) => (Len(cbres) = N /\ Range(cbres) = 1..N)
+Inv_RetIffRetRes == ret = (IF RetRes THEN cbres ELSE <<>>)
+\* per-worker callable: every drawn input was generated for the worker that asked for it, exactly once
+Inv_GenOnce == \A x \in 1..N : (gen[x] # 0) = (CallSrc /\ x < nxt)
 TermDump == Terminal => PrintT(<<"TERM", ToString(Rec)>>)
 \* constants that cfg files cannot express
 NoPairs == {}
